@@ -200,6 +200,11 @@ class Tr:
 
     # ---------------------------------------------------------------- return values
     def ret(self, e, env):
+        if getattr(self, "ext_ret", False):
+            # extended-real result: -np.inf is None, every other value Some (the models' `option T` for log-densities)
+            if isinstance(e, ast.UnaryOp) and isinstance(e.op, ast.USub) and _dotted(e.operand) in ("np.inf", "math.inf"):
+                return "None"
+            return "Some (%s)" % self.ex(e, env)
         # np.array([...]) / np.array([...]).reshape(...)  ->  list ;  tuple -> list ; scalar -> scalar
         if isinstance(e, ast.Call) and isinstance(e.func, ast.Attribute) and e.func.attr == "reshape":
             e = e.func.value
@@ -336,6 +341,7 @@ def translate(repo, relpath, qualname, name, params, rettype, **kw):
         if not isinstance(dflt, ast.Constant):
             raise Unsupported("non-constant default")
     tr = Tr(bools=[p for p, k in params if k == "bool"], **kw)
+    tr.ext_ret = rettype == "option R"
     env = {p for p, k in params if k == "R"} | {tr.svar(a) for a in tr.state}
     triples = {p for p, k in params if k == "R3"}
     kinds = {"R": "R", "bool": "bool", "R3": "(R * R * R)"}
